@@ -1,10 +1,13 @@
 (* C02 — Line wrapping conserves every rune and every glyph, in order.  Property theorems only.
-   Proved here: the rune-range bookkeeping (all run lists, configurations, widths, break attributes, fuel) and the
-   advance bookkeeping of cutRun.  NOT proved (kept out of this file): that the last piece of a line is non-empty and that
-   the line invariant is re-established for the following call (both need an ordering invariant of the breaker), the
-   glyph-exactness of cutRun (map3_correct / cut_run_exact) and panic freedom; those clauses of C02 are covered by the
-   oracle check_conservation on the implementation's output only. *)
-From TV Require Import Model.Wrap Spec.Wrap Proofs.Wrap.
+   Proved here: the rune-range bookkeeping of one call and of ANY sequence of WrapNextLine calls after Prepare
+   (lines_contiguous: contiguity from 0, non-empty lines and pieces, NextLine/Truncated accounting, the call reporting
+   done accounts for all n runes), the rune -> glyph mapping (map3_correct) and the glyph-exactness and advance of cutRun
+   at cluster boundaries, LTR and RTL (cut_run_exact), and the advance bookkeeping of cutRun.
+   wrap_terminates: the fuel passed by the model's callers always suffices when every GlyphCount is >= 1.
+   NOT proved (covered by the oracle check_conservation on the implementation's output only): that every cut the wrapper
+   makes is at cluster boundaries of a well-formed run (the composition of cut_run_exact with the line invariant needs a
+   store-structure invariant through the loops), and therefore panic freedom of a whole call (wrap_no_panic). *)
+From TV Require Import Model.Wrap Spec.Wrap Spec.WrapCut Proofs.Wrap Proofs.WrapCut Proofs.WrapLines Proofs.WrapTotal.
 
 (* best_is_prefix_cut (partial): from any state satisfying the line invariant, processBreakOption keeps the invariant
    (candidate prefix = chain of non-empty whole/cut runs from lineStartRune ending where the cursor run starts, same for
@@ -62,3 +65,172 @@ Example first_line_example :
   exists w' l d, wrap_next_line (prepare (w_zero st) cfg_zero [4; 4; 4; 7] runs 0 0) 2 = Ok (w', mkWrapped (Some l) 0 2, d)
                  /\ map o_cnt l = [2].
 Proof. vm_compute. eexists _, _, _. split; reflexivity. Qed.
+
+(* ---- the rune -> glyph mapping and cutRun (LTR and RTL) -------------------------------------------------- *)
+
+(* map3_correct: for a run whose glyphs are whole clusters, monotone in the run's progression, with consistent
+   RuneCount/GlyphCount (wf_glyphs = the cluster clause of wf_run), mapRunesToClusterIndices3 overwrites every entry of the
+   (possibly stale) buffer and returns exactly map3_spec: entry i = storage index of the first glyph of the cluster holding
+   rune off+i.  No panic, fuel suffices.  All directions (dir_rtl dir decides the loop). *)
+Theorem map3_correct : forall dir off gs init cnt,
+  wf_glyphs dir gs off cnt = true -> zlen init = cnt ->
+  map3 dir off gs init = Ok (map3_spec gs off cnt).
+Proof. exact Proofs.WrapCut.map3_correct. Qed.
+Print Assumptions map3_correct.
+
+(* the specification is what the property text says: the mapped glyph exists, its cluster holds the rune, and no earlier
+   glyph's cluster does *)
+Theorem map3_maps_to_first_glyph_of_cluster : forall dir off gs cnt i,
+  wf_glyphs dir gs off cnt = true -> 0 <= i < cnt ->
+  let j := znth 0 (map3_spec gs off cnt) i in
+  0 <= j < zlen gs /\ holds (off + i) (znth glyph_zero gs j) = true
+  /\ (forall k, 0 <= k < j -> holds (off + i) (znth glyph_zero gs k) = false).
+Proof. exact map3_spec_first. Qed.
+Print Assumptions map3_maps_to_first_glyph_of_cluster.
+
+(* cut_run_exact: cutting a well-formed whole run (at least one rune) at cluster boundaries [s', e'+1) (the requested range
+   clamped to the run) returns the rune range [s', e'+1) and exactly the glyphs whose cluster starts in it, in storage
+   order, as a non-empty contiguous slice of the run's array; the only store edit is trimStartLetterSpacing on the first
+   glyph of the slice when trim is set; Advance = sum of the slice's advances afterwards.  LTR and RTL.
+   (Without 1 <= o_cnt the statement is false: cutRun panics on an empty run, Proofs/WrapCut.v cut_run_total_needs_runes.) *)
+Theorem cut_run_exact : forall st run s e trim,
+  let gs := out_glyphs st run in
+  let s' := Z.max s (o_off run) in
+  let e' := Z.min e (o_off run + o_cnt run - 1) in
+  o_lo run = 0 -> o_len run = zlen (src_array st (o_src run)) -> 0 <= o_src run < zlen st ->
+  wf_glyphs (o_dir run) gs (o_off run) (o_cnt run) = true ->
+  1 <= o_cnt run ->
+  s <= e -> s < o_off run + o_cnt run -> o_off run <= e ->
+  cluster_start gs (o_off run) (o_cnt run) s' = true ->
+  cluster_start gs (o_off run) (o_cnt run) (e' + 1) = true ->
+  exists st' r, cut_run st run (map3_spec gs (o_off run) (o_cnt run)) s e trim = Ok (st', r)
+    /\ o_off r = s' /\ out_end r = e' + 1 /\ o_src r = o_src run /\ o_dir r = o_dir run /\ 0 < o_len r
+    /\ out_glyphs st r = filter (in_range s' (e' + 1)) gs
+    /\ st' = (if trim then store_update st (o_src run) (o_lo r) trim_glyph else st)
+    /\ out_glyphs st' r = (if trim then trim_first (out_glyphs st r) else out_glyphs st r)
+    /\ o_adv r = sum_adv (out_glyphs st' r).
+Proof. exact Proofs.WrapCut.cut_run_exact. Qed.
+Print Assumptions cut_run_exact.
+
+(* the same cut satisfies the glyph clause of the oracle (Spec/Wrap.v piece_glyphs_ok: inside the slice every cluster lies
+   within the rune range, outside every cluster is disjoint from it) *)
+Theorem cut_run_exact_passes_oracle : forall st run s e trim,
+  let gs := out_glyphs st run in
+  let s' := Z.max s (o_off run) in
+  let e' := Z.min e (o_off run + o_cnt run - 1) in
+  o_lo run = 0 -> o_len run = zlen (src_array st (o_src run)) -> 0 <= o_src run < zlen st ->
+  wf_glyphs (o_dir run) gs (o_off run) (o_cnt run) = true ->
+  1 <= o_cnt run ->
+  s <= e -> s < o_off run + o_cnt run -> o_off run <= e ->
+  cluster_start gs (o_off run) (o_cnt run) s' = true ->
+  cluster_start gs (o_off run) (o_cnt run) (e' + 1) = true ->
+  exists st' r, cut_run st run (map3_spec gs (o_off run) (o_cnt run)) s e trim = Ok (st', r)
+    /\ piece_glyphs_ok (src_array st (o_src run)) 0 (o_lo r) (o_lo r + o_len r) s' (e' + 1) = true.
+Proof. exact cut_run_exact_oracle. Qed.
+Print Assumptions cut_run_exact_passes_oracle.
+
+(* cutRun never panics on a well-formed non-empty run with the correct mapping, whatever the (overlapping) rune range:
+   no cluster-boundary hypothesis *)
+Theorem cut_run_total : forall st run s e trim,
+  let gs := out_glyphs st run in
+  o_lo run = 0 -> o_len run = zlen (src_array st (o_src run)) ->
+  wf_glyphs (o_dir run) gs (o_off run) (o_cnt run) = true ->
+  1 <= o_cnt run ->
+  s <= e -> s < o_off run + o_cnt run -> o_off run <= e ->
+  exists st' r, cut_run st run (map3_spec gs (o_off run) (o_cnt run)) s e trim = Ok (st', r).
+Proof. exact Proofs.WrapCut.cut_run_total. Qed.
+Print Assumptions cut_run_total.
+
+(* breakOption.isValid never panics on a well-formed run and, when it accepts an option, the position after the option is
+   a cluster boundary of the run (so the cut made for an accepted option ends at a cluster boundary) *)
+Theorem is_valid_sound : forall st run opt,
+  let gs := out_glyphs st run in
+  o_lo run = 0 -> o_len run = zlen (src_array st (o_src run)) ->
+  wf_glyphs (o_dir run) gs (o_off run) (o_cnt run) = true ->
+  exists v, is_valid st opt (map3_spec gs (o_off run) (o_cnt run)) run = Ok v
+            /\ (v = true -> cluster_start gs (o_off run) (o_cnt run) (opt + 1) = true).
+Proof. exact is_valid_spec. Qed.
+Print Assumptions is_valid_sound.
+
+(* ---- any number of WrapNextLine calls ---------------------------------------------------------------------- *)
+
+(* one call from a state satisfying the between-calls invariant CI (Proofs/WrapLines.v: contiguous runs, cursor run starts
+   at or before the line start, breaker register bounds, truncation counter consistent, last break options pending):
+   the result satisfies line_result2 — NextLine in [start, n]; 0 <= Truncated in {0, n - NextLine}; a non-nil line is
+   non-empty and is a contiguous chain of non-empty text runs from start to NextLine, followed exactly by the truncator
+   with Runes = (NextLine, Truncated = n - NextLine) when appended — and either done, or CI holds again (the line invariant
+   is re-established for the next call) and the breaker measure phi (unread options + unused flags) has decreased *)
+Theorem wrap_call_reestablishes_invariant : forall n attrs w mw w' wl d,
+  CI n attrs w -> w_more w = true ->
+  wrap_next_line w mw = Ok (w', wl, d) ->
+  line_result2 n (w_start w) (o_src (c_truncator (w_cfg w))) wl
+  /\ wl_next wl = w_start w' /\ c_truncator (w_cfg w') = c_truncator (w_cfg w)
+  /\ (d = false -> CI n attrs w' /\ w_more w' = true /\ phi n (w_br w') + 1 <= phi n (w_br w))
+  /\ (d = true -> w_more w' = false /\ (Fin n attrs -> wl_next wl + wl_truncated wl = n)).
+Proof. exact wrap_next_line_J. Qed.
+Print Assumptions wrap_call_reestablishes_invariant.
+
+(* lines_contiguous: Prepare on any contiguous run list covering [0,n), n >= 1, any configuration and break attributes,
+   followed by ANY number of WrapNextLine calls with ANY widths (run_calls; calls after done included).  lines_ok says:
+   reading the recorded results from rune 0, every call made while the wrapper is live satisfies line_result2 from the
+   previous NextLine (so the concatenated text ranges of the lines are contiguous from 0, no non-nil line is empty and no
+   piece has a zero rune count); the call that reports done satisfies NextLine + Truncated = n provided the text end
+   carries the line and grapheme flags (Fin: a guarantee of the segmenter, C06); every later call returns the nil line.
+   The empty paragraph (n = 0, no runs) is outside the statement: WrapNextLine then returns done at once. *)
+Theorem lines_contiguous : forall n w cfg attrs runs widths w' rs,
+  runs_ok runs n -> zlen attrs - 1 = n -> 1 <= n ->
+  run_calls (prepare w cfg attrs runs 0 0) widths = Ok (w', rs) ->
+  lines_ok n (o_src (c_truncator cfg)) (Fin n attrs) true 0 rs.
+Proof. exact lines_contiguous_all. Qed.
+Print Assumptions lines_contiguous.
+
+(* wrap_terminates: Prepare on any contiguous run list covering [0,n), n >= 1, any configuration, break attributes and
+   widths, over a store in which every glyph has GlyphCount >= 1 (gc_pos; with GlyphCount <= 0 the Go loop of
+   mapRunesToClusterIndices3 does not terminate either): WrapParagraph, the iterative API (wrap_iterative) and any sequence
+   of WrapNextLine calls never return OutOfFuel, i.e. the fuel the model passes — S(len glyphs) for the mapping, S(len runs)
+   for fillUntil, len attrs + 2 for nextGraphemeBreak and each loop of wrapNextLine, 2 len attrs + 2 calls per paragraph —
+   always suffices.  Measures: glyphs / runs left, unread flagged positions + unused flag of one iterator, and
+   phi = both iterators + both flags, which decreases at every call that does not report done. *)
+Theorem wrap_terminates : forall n w cfg attrs runs,
+  runs_ok runs n -> zlen attrs - 1 = n -> 1 <= n -> gc_pos (w_st w) = true ->
+  (forall mw, wrap_paragraph w cfg mw attrs runs <> OutOfFuel)
+  /\ (forall widths, wrap_iterative w cfg widths attrs runs <> OutOfFuel)
+  /\ (forall widths, run_calls (prepare w cfg attrs runs 0 0) widths <> OutOfFuel).
+Proof. exact wrap_terminates_all. Qed.
+Print Assumptions wrap_terminates.
+
+(* non-vacuity: an LTR and an RTL run with a 2-rune cluster and a 2-glyph cluster; the mapping from a stale buffer *)
+Example map3_example :
+  let ltr := [mkGlyph 5 2 1 10 10 0 1 0; mkGlyph 7 1 2 20 20 0 2 0; mkGlyph 7 1 2 30 30 0 3 0; mkGlyph 8 1 1 40 40 0 4 0] in
+  wf_glyphs 0 ltr 5 4 = true /\ map3 0 5 ltr [9; 9; 9; 9] = Ok [0; 0; 1; 3]
+  /\ wf_glyphs 1 (rev ltr) 5 4 = true /\ map3 1 5 (rev ltr) [9; 9; 9; 9] = Ok [3; 3; 1; 0].
+Proof. vm_compute. repeat split. Qed.
+(* non-vacuity of cut_run_exact: hypotheses hold and the cut [7,8) of the LTR run is the two glyphs of cluster 7 *)
+Example cut_run_exact_example :
+  let ltr := [mkGlyph 5 2 1 10 10 0 1 0; mkGlyph 7 1 2 20 20 0 2 0; mkGlyph 7 1 2 30 30 0 3 0; mkGlyph 8 1 1 40 40 0 4 0] in
+  let st := [ltr] in let run := mkOut 100 0 5 4 0 0 4 0 in
+  wf_glyphs 0 (out_glyphs st run) 5 4 = true
+  /\ cluster_start (out_glyphs st run) 5 4 7 = true /\ cluster_start (out_glyphs st run) 5 4 8 = true
+  /\ exists st' r, cut_run st run (map3_spec (out_glyphs st run) 5 4) 7 7 true = Ok (st', r)
+        /\ (o_off r, o_cnt r, o_lo r, o_len r, o_adv r) = (7, 1, 1, 2, 48).
+Proof. vm_compute. repeat split. eexists _, _. split; reflexivity. Qed.
+(* non-vacuity of lines_contiguous: three runes "a a b" in two runs, width 1 px: three calls give the lines [0,1) [1,2) [2,3),
+   the third reports done; a fourth call returns the nil line; the hypotheses (runs_ok, Fin) hold *)
+Example lines_contiguous_example :
+  let st := [[mkGlyph 0 1 1 64 64 0 0 0; mkGlyph 1 1 1 64 64 0 0 0]; [mkGlyph 2 1 1 64 64 0 0 0]; []] in
+  let runs := [mkOut 128 0 0 2 0 0 2 0; mkOut 64 0 2 1 1 0 1 0] in
+  let attrs := [4; 5; 5; 7] in
+  runs_ok runs 3 /\ Fin 3 attrs
+  /\ exists w' rs, run_calls (prepare (w_zero st) cfg_zero attrs runs 0 0) [1; 1; 1; 1] = Ok (w', rs)
+       /\ map (fun x => (wl_next (fst x), snd x)) rs = [(1, false); (2, false); (3, true); (3, true)].
+Proof.
+  split; [split; [reflexivity|repeat constructor]|]. split; [split; reflexivity|].
+  vm_compute. eexists _, _. split; reflexivity.
+Qed.
+(* non-vacuity of wrap_terminates: the hypotheses hold for the same paragraph and WrapParagraph at width 1 returns 3 lines *)
+Example wrap_terminates_example :
+  let st := [[mkGlyph 0 1 1 64 64 0 0 0; mkGlyph 1 1 1 64 64 0 0 0]; [mkGlyph 2 1 1 64 64 0 0 0]; []] in
+  let runs := [mkOut 128 0 0 2 0 0 2 0; mkOut 64 0 2 1 1 0 1 0] in
+  gc_pos st = true /\ runs_ok runs 3
+  /\ exists w' ls, wrap_paragraph (w_zero st) cfg_zero 1 [4; 5; 5; 7] runs = Ok (w', ls, 0) /\ length ls = 3%nat.
+Proof. split; [reflexivity|]. split; [split; [reflexivity|repeat constructor]|]. vm_compute. eexists _, _. split; reflexivity. Qed.
